@@ -179,6 +179,7 @@ func RunOne(spec *PropSpec, runSeed uint64, maxEvents int, keepEvents bool) *Run
 		res, v := h.Step(ev, step)
 		th.add(evSummary(ev, res))
 		sched.Observe(ev, res)
+		recordAbstract(w, ev, res)
 		if v != nil {
 			out.Violation = v
 			break
@@ -464,4 +465,64 @@ func sortedProbeKeys(m map[string]int64) []string {
 	}
 	sort.Strings(ks)
 	return ks
+}
+
+// recordAbstract feeds the evidence's reach measures: distinct abstract states = distinct tuples
+// (scenario, #open vaults, #locked vaults, #live auctions, #lend positions, #borrows, #live orders bucket, any price inactive,
+// any breaker on), sampled at block events; distinct transitions = distinct (event tag, outcome class) pairs.
+func recordAbstract(w *World, ev *Event, res Result) {
+	if w.Panicked != "" {
+		return
+	}
+	cls := "ok"
+	switch ev.Kind {
+	case "tx":
+		if !res.Tx.OK() {
+			cls = fmt.Sprintf("fail%d", res.Tx.Code)
+		}
+	default:
+		if res.Err != nil {
+			cls = "err"
+		}
+	}
+	tag := ev.Tag
+	if tag == "" {
+		tag = ev.Kind
+	}
+	w.Stats.Transition(tag + ":" + cls)
+	if ev.Kind != "block" {
+		return
+	}
+	ctx := w.Ctx()
+	bucket := func(n int) int {
+		switch {
+		case n <= 3:
+			return n
+		case n <= 7:
+			return 5
+		case n <= 15:
+			return 10
+		}
+		return 20
+	}
+	orders := 0
+	if apps, ok := w.App.AssetKeeper.GetApps(ctx); ok {
+		for _, a := range apps {
+			orders += len(w.App.LiquidityKeeper.GetAllOrders(ctx, a.Id))
+		}
+	}
+	inactive, breaker := 0, 0
+	for _, t := range w.App.MarketKeeper.GetAllTwa(ctx) {
+		if !t.IsPriceActive {
+			inactive = 1
+		}
+	}
+	for _, k := range w.App.EsmKeeper.GetAllKillSwitchData(ctx) {
+		if k.BreakerEnable {
+			breaker = 1
+		}
+	}
+	borrows, _ := w.App.LendKeeper.GetBorrows(ctx)
+	w.Stats.State(fmt.Sprintf("%s|v%d|l%d|a%d|le%d|b%d|o%d|p%d|k%d", w.Cfg.Scenario, bucket(len(w.App.VaultKeeper.GetVaults(ctx))), bucket(len(w.App.NewliqKeeper.GetLockedVaults(ctx))),
+		bucket(len(w.App.NewaucKeeper.GetAuctions(ctx))), bucket(len(w.App.LendKeeper.GetAllLend(ctx))), bucket(len(borrows)), bucket(orders), inactive, breaker))
 }
